@@ -21,9 +21,10 @@ def prepare(case):
     return c
 
 
-def call(mod, c, Nthread):
+def call(mod, c, Nthread, tracers=None):
     halo, part, params = HC.build_inputs(c)
-    tracers = {t: dict(v) for t, v in c['tracers'].items()}
+    if tracers is None:
+        tracers = {t: dict(v) for t, v in c['tracers'].items()}
     res = mod.gen_gal_cat(halo, part, tracers, params, Nthread=Nthread, enable_ranks=c['enable_ranks'],
                           rsd=c['rsd'], nfw=False, write_to_disk=False, verbose=False)
     return res
